@@ -41,6 +41,10 @@ from props import c16 as M  # noqa: E402
 ID = 'C17'
 LEAN_MODULES = ['Py65.Props.C17', 'Py65.Proofs.MonRunGenEq', 'Py65.Props.C17g']
 NAMESPACES = ['Py65.Props.C17', 'Py65.Proofs.MonRunGenEq', 'Py65.Props.C17g']
+# library helpers (CPython behaviour modelled in lean/Py65/Model/*Rt*.lean ...) that the generated code of these
+# modules calls, derived by scanning the Lean sources (harness/rtscan.py); validated against CPython on every run
+import rtcheck  # noqa: E402
+RT_HELPERS = rtcheck.helpers_for(LEAN_MODULES)
 LEVEL = 'proof'
 USES_PROLOGUE = True
 USES_GEN = True
